@@ -132,6 +132,29 @@ pub(crate) fn judge(sim: &Sim, outcome: &RunOutcome) -> Vec<(String, String)> {
     if !bad.is_empty() {
         return bad;
     }
+    // at quiescence nothing is in flight: a peer the client still waits for (a Request* state)
+    // can only be disconnected by the message timeout although it answered everything correctly
+    for p in &sim.world.peers {
+        if !p.connected {
+            continue;
+        }
+        if let Some(st) = sim.c().peers.get_state(&ckb_network::PeerIndex::new(p.id)) {
+            use crate::protocols::light_client::PeerState;
+            let waiting = match &st {
+                PeerState::RequestFirstLastState { .. } => Some("RequestFirstLastState"),
+                PeerState::RequestFirstLastStateProof { .. } => Some("RequestFirstLastStateProof"),
+                PeerState::RequestNewLastState { .. } => Some("RequestNewLastState"),
+                PeerState::RequestNewLastStateProof { .. } => Some("RequestNewLastStateProof"),
+                _ => None,
+            };
+            if let Some(w) = waiting {
+                bad.push((
+                    format!("honest-peer-left-waiting/{}", w),
+                    format!("peer {} answered every request, nothing is in flight, but the client still waits for it in {} (it will be disconnected by the message timeout)", p.id, w),
+                ));
+            }
+        }
+    }
     // heaviest announced tip
     let mut best: Option<(U256, ckb_types::packed::Byte32, u64)> = None;
     for p in &sim.world.peers {
